@@ -668,7 +668,7 @@ fn offline_rules(sc: &Scenario, log: &[Ev], accepted: &[String], viol: &mut Vec<
     while i < sinkside.len() {
         match sinkside[i] {
             Ev::Exit { metric, out: Out::Err(kidx), tid } if sc.handler => {
-                let want_msg = format!("scripted-error:{}", metric);
+                let want_msg = expected_handler_msg(*kidx, metric);
                 let want_kind = ERR_KINDS[*kidx as usize % ERR_KINDS.len()];
                 match sinkside.get(i + 1) {
                     Some(Ev::Handler { msg, kind, tid: ht, on_harness_thread: h_on_harness }) => {
